@@ -3,21 +3,22 @@ HARNESSES = {}
 
 
 class H:
-    def __init__(self, prop, name, fn, variants, fuc, kind, doc, tiers):
+    def __init__(self, prop, name, fn, variants, fuc, kind, doc, tiers, seeds=None):
         self.prop, self.name, self.fn, self.variants = prop, name, fn, variants
         self.fuc, self.kind, self.doc, self.tiers = fuc, kind, doc, tiers
+        self.seeds = seeds
 
     @property
     def key(self):
         return '%s:%s' % (self.prop, self.name)
 
 
-def harness(prop, name, variants=None, fuc=(), kind='proof', tiers=('quick', 'thorough')):
+def harness(prop, name, variants=None, fuc=(), kind='proof', tiers=('quick', 'thorough'), seeds=None):
     """kind: 'proof' (symbolic VCs, unbounded) | 'bounded' (concrete sweep of the same contract, stated box)
     | 'lemma' (pure obligation over spec functions, no repository code called)."""
     def deco(fn):
         h = H(prop, name, fn, list(variants) if variants is not None else [None], tuple(fuc), kind,
-              (fn.__doc__ or '').strip(), tiers)
+              (fn.__doc__ or '').strip(), tiers, seeds)
         HARNESSES[h.key] = h
         return fn
     return deco
